@@ -878,3 +878,33 @@ package fsm
 //@   loop 0 invariant -1 <= rangeindex && rangeindex < len(c.Command.Batch) && len(req) == len(c.Command.Batch) && fresh(req)
 //@   loop 0 invariant forall j int :: 0 <= j && j <= rangeindex ==> req[j] != nil && !req[j].PrevKv && sameSlice(req[j].Key, c.Command.Batch[j].Key) && sameSlice(req[j].Value, c.Command.Batch[j].Value)
 //@   loop 1 invariant -1 <= rangeindex && rangeindex < len(rop) && (isNilSlice(res) || fresh(res))
+
+// ---------------------------------------------------------------- DELETE_BATCH (C01)
+
+// handleDeleteBatch: single-key deletes applied one after the other, in order (two-state step clause)
+//@ func handleDeleteBatch
+//@   results results, err
+//@   requires ctx != nil && ctx.batch != nil && ctx.db != nil && ctx.batch.bdb == ctx.db && ctx.batch != ctx.db
+//@   requires forall j int :: 0 <= j && j < len(ops) ==> ops[j] != nil && isNilSlice(ops[j].RangeEnd)
+//@   ensures err == nil ==> len(results) == len(ops) && ctx.batch != nil && ctx.batch.bdb == ctx.db && ctx.batch != ctx.db
+//@   ensures ctx.index == old(ctx.index) && ctx.leaderIndex == old(ctx.leaderIndex) && ctx.db == old(ctx.db) && (ctx.batch == old(ctx.batch) || fresh(ctx.batch))
+//@   ensures [C01.handle.book] err == nil ==> bookSame(ctx.batch.vP, ctx.batch.vV, old(ctx.batch.vP), old(ctx.batch.vV))
+//@   modifies ctx.batch, family(G_any_vP), family(G_any_vV)
+//@   loop 0 invariant -1 <= rangeindex && rangeindex < len(ops) && len(results) == len(ops) && fresh(results)
+//@   loop 0 invariant ctx.batch != nil && ctx.db != nil && ctx.batch.bdb == ctx.db && ctx.batch != ctx.db && ctx.index == old(ctx.index) && ctx.leaderIndex == old(ctx.leaderIndex) && ctx.db == old(ctx.db) && (ctx.batch == old(ctx.batch) || fresh(ctx.batch))
+//@   loop 0 invariant bookSame(ctx.batch.vP, ctx.batch.vV, old(ctx.batch.vP), old(ctx.batch.vV))
+//@   loop 0 step [C01.delbatch.step] forall k Bytes :: ctx.batch.vP[k] == (k == encK(1, bytesOf(ops[rangeindex+1].Key)) ? false : prev(ctx.batch.vP[k]))
+//@   loop 0 step [C01.delbatch.values] forall k Bytes :: ctx.batch.vP[k] ==> ctx.batch.vV[k] == prev(ctx.batch.vV[k])
+
+//@ func (commandDeleteBatch).handle
+//@   results ur, res, err
+//@   requires c.Command != nil && ctx != nil && ctx.batch != nil && ctx.db != nil && ctx.batch.bdb == ctx.db && ctx.batch != ctx.db
+//@   requires forall j int :: 0 <= j && j < len(c.Command.Batch) ==> c.Command.Batch[j] != nil
+//@   ensures [C10.handle.rev] err == nil ==> res != nil && res.Revision == ctx.index && fresh(res)
+//@   ensures ctx.index == old(ctx.index) && ctx.leaderIndex == old(ctx.leaderIndex) && ctx.db == old(ctx.db) && (ctx.batch == old(ctx.batch) || fresh(ctx.batch))
+//@   ensures [C01.handle.book] err == nil ==> bookSame(ctx.batch.vP, ctx.batch.vV, old(ctx.batch.vP), old(ctx.batch.vV))
+//@   before handleDeleteBatch assert [C01.delbatch.ops] len(ops) == len(c.Command.Batch) && forall j int :: 0 <= j && j < len(ops) ==> ops[j] != nil && isNilSlice(ops[j].RangeEnd) && sameSlice(ops[j].Key, c.Command.Batch[j].Key)
+//@   modifies ctx.batch, family(G_any_vP), family(G_any_vV)
+//@   loop 0 invariant -1 <= rangeindex && rangeindex < len(c.Command.Batch) && len(req) == len(c.Command.Batch) && fresh(req)
+//@   loop 0 invariant forall j int :: 0 <= j && j <= rangeindex ==> req[j] != nil && isNilSlice(req[j].RangeEnd) && sameSlice(req[j].Key, c.Command.Batch[j].Key)
+//@   loop 1 invariant -1 <= rangeindex && rangeindex < len(rop) && (isNilSlice(res) || fresh(res))
